@@ -1,6 +1,9 @@
 package redis
 
-import "strconv"
+import (
+	"math"
+	"strconv"
+)
 
 func FormatFloat64(s string) (float64, error) {
 	var f string
@@ -9,7 +12,12 @@ func FormatFloat64(s string) (float64, error) {
 	} else {
 		f = s
 	}
-	return strconv.ParseFloat(f, 64)
+	v, err := strconv.ParseFloat(f, 64)
+	if err == nil && math.IsNaN(v) {
+		// "nan" parses, but is neither a score nor an increment
+		return 0, strconv.ErrSyntax
+	}
+	return v, err
 }
 
 func FormatInt64(s string) (int64, error) {
